@@ -89,7 +89,7 @@ theorem joinScore_nonpos (mult : Rat) (variant : Int) (prev cur : Ends) (hm : 0 
     (h : joinScore mult variant prev cur = some v) : v ≤ 0 := by
   unfold joinScore at h
   simp only at h
-  generalize (if cur.reverse then prev.e.q.pos - cur.s.q.pos else cur.s.q.pos - prev.e.q.pos) = qd at h
+  generalize (cur.s.q.pos - prev.e.q.pos) = qd at h
   split at h
   · cases h
   · cases h
@@ -99,13 +99,14 @@ theorem joinScore_nonpos (mult : Rat) (variant : Int) (prev cur : Ends) (hm : 0 
 
 theorem joinScore_zero (mult : Rat) (variant : Int) (prev cur : Ends)
     (hr : cur.s.r.pos = prev.e.r.pos)
-    (hq : (if cur.reverse then prev.e.q.pos - cur.s.q.pos else cur.s.q.pos - prev.e.q.pos) = 0)
+    (hq : cur.s.q.pos = prev.e.q.pos)
     (hl : 0 ≤ min (cur.e.r.pos - cur.s.r.pos) (prev.e.r.pos - prev.s.r.pos)) :
     joinScore mult variant prev cur = some 0 := by
   unfold joinScore
   simp only
   have hrd : cur.s.r.pos - prev.e.r.pos = 0 := by omega
-  rw [hq, hrd]
+  have hqd : cur.s.q.pos - prev.e.q.pos = 0 := by omega
+  rw [hqd, hrd]
   have h1 := iabs_nonneg (cur.e.q.pos - cur.s.q.pos)
   have h2 := iabs_nonneg (prev.e.q.pos - prev.s.q.pos)
   rw [if_neg (by omega)]
@@ -115,10 +116,10 @@ theorem joinScore_some_overlap (mult : Rat) (variant : Int) (prev cur : Ends) (v
     (h : joinScore mult variant prev cur = some v) :
     0 ≤ min (cur.e.r.pos - cur.s.r.pos) (prev.e.r.pos - prev.s.r.pos) + 2 * (cur.s.r.pos - prev.e.r.pos) ∧
     0 ≤ min (iabs (cur.e.q.pos - cur.s.q.pos)) (iabs (prev.e.q.pos - prev.s.q.pos)) +
-        2 * (if cur.reverse then prev.e.q.pos - cur.s.q.pos else cur.s.q.pos - prev.e.q.pos) := by
+        2 * (cur.s.q.pos - prev.e.q.pos) := by
   unfold joinScore at h
   simp only at h
-  generalize (if cur.reverse then prev.e.q.pos - cur.s.q.pos else cur.s.q.pos - prev.e.q.pos) = qd at h ⊢
+  generalize (cur.s.q.pos - prev.e.q.pos) = qd at h ⊢
   split at h
   · cases h
   · rename_i hlt
